@@ -548,20 +548,104 @@ def gen_config_for(r, schema, depth=0):
     return GOOD_DEFAULTS.get(t, None)
 
 
+# schema nodes that validation rejects (or that do not convert), to be combined with the test section: several
+# panics sit behind "the earlier validation passed" assumptions
+SCHEMA_DEFECTS = [
+    {"$ref": "%zz"}, {"$ref": "#/definitions/x"}, {"$ref": ""}, {"type": "string", "pattern": "("}, {"type": "string", "default": 5},
+    {"type": "nonsense"}, {}, {"type": "string", "format": "nonsense"}, {"type": "array"}, {"type": "array", "items": [{"type": "string"}]},
+    {"type": "object", "additionalProperties": True, "properties": {"x": {"type": "string"}}}, {"type": "string", "enum": [1]},
+    {"type": "object", "not": {"$ref": "%zz"}}, {"type": "object", "properties": {"x": {"$ref": "%zz"}}},
+    {"type": "string", "x-kubernetes-validations": [{"rule": "self =="}]}, {"type": "string", "nullable": True, "default": None},
+    {"type": "string", "maxLength": -1}, {"type": "string", "id": "%zz"}, {"type": "string", "$schema": "%zz"},
+    {"type": "array", "items": {"$ref": "%zz"}}, {"type": "object", "additionalProperties": {"$ref": "%zz"}},
+    {"type": "object", "definitions": {"d": {"$ref": "%zz"}}}, {"type": "object", "dependencies": {"a": ["b"]}},
+    {"type": "object", "patternProperties": {"(": {"type": "string"}}}, {"type": "integer", "multipleOf": 0}, {"type": "string", "externalDocs": {"url": "%zz"}},
+    {"type": "string", "example": {"a": [1]}}, {"type": "object", "x-kubernetes-embedded-resource": True},
+    {"x-kubernetes-int-or-string": True, "type": "string"}, {"type": "array", "x-kubernetes-list-type": "map", "items": {"type": "string"}},
+]
+TEST_SECTIONS = [
+    None,
+    {"template": [{"name": "t1", "context": {"package": {"metadata": {"name": "n", "namespace": "ns"}}, "config": {}}}]},
+    {"template": [{"name": "t1", "context": {"package": {"metadata": {"name": "n", "namespace": "ns"}}, "config": {"a": 5, "b": {"c": [1]}}}}]},
+    {"template": [{"name": "t1", "context": {"package": {"metadata": {"name": "n"}}, "config": {"a": "x"}}}]},
+    {"template": [{"name": "t1", "context": {"package": {"metadata": {"name": "n"}}}}]},
+    {"template": [{"name": "t1", "context": {"package": {"metadata": {"name": "n"}}, "config": {"a": "x"}}},
+                  {"name": "bad name!", "context": {"package": {"metadata": {"name": "n"}}, "config": {"a": 1}}}]},
+    {"template": [{"name": "bad name!", "context": {"package": {"metadata": {"name": "n"}}, "config": {"a": "x"}}}]},
+    {"template": [{"name": "t1", "context": {"package": {"metadata": {"name": "n"}}, "config": {"a": "x"}}}], "kubeconform": {"kubernetesVersion": "v1.29.0"}},
+    {"kubeconform": {}}, {"kubeconform": {"kubernetesVersion": "v1.29.0", "schemaLocations": ["file:///nope"]}},
+    {"template": []},
+]
+
+
+def test_tail(section):
+    return "" if section is None else "test: %s\n" % json.dumps(section)
+
+
+def place_defect(defect, where):
+    if where == "root":
+        return defect
+    if where == "property":
+        return {"type": "object", "properties": {"a": defect}}
+    if where == "items":
+        return {"type": "object", "properties": {"a": {"type": "array", "items": defect}}}
+    return {"type": "object", "properties": {"a": {"type": "object", "properties": {"b": {"type": "object", "additionalProperties": defect}}}}}
+
+
+def defect_corpus():
+    """Every schema defect x where it sits x every shape of the manifest's test section."""
+    out = []
+    for defect in SCHEMA_DEFECTS:
+        for where in ("root", "property", "items", "deep"):
+            for section in TEST_SECTIONS:
+                files = {"manifest.yaml": schema_manifest(place_defect(defect, where), tail=test_tail(section)),
+                         "a.yaml": obj_yaml("a", {A_PHASE: "deploy"})}
+                out.append(({"target": "pipeline", "render": render_sc(files, {"a": "x"})}, "ScOpaque"))
+                # Deploy admits the configuration before the manifest is validated; `kubectl package validate` validates first
+                out.append(({"target": "cli", "cmd": "validate", "render": render_sc(files, {"a": "x"})}, "ScOpaque"))
+    return out
+
+
+def inject_defect(r, schema, depth=0):
+    """Replace one node of a generated schema by a defect."""
+    if not isinstance(schema, dict) or depth > 3 or r.random() < 0.3:
+        return json.loads(json.dumps(r.choice(SCHEMA_DEFECTS)))
+    out = dict(schema)
+    props = out.get("properties")
+    if isinstance(props, dict) and props and r.random() < 0.6:
+        k = r.choice(sorted(props))
+        out["properties"] = dict(props, **{k: inject_defect(r, props[k], depth + 1)})
+    elif isinstance(out.get("items"), dict) and r.random() < 0.7:
+        out["items"] = inject_defect(r, out["items"], depth + 1)
+    elif isinstance(out.get("additionalProperties"), dict):
+        out["additionalProperties"] = inject_defect(r, out["additionalProperties"], depth + 1)
+    else:
+        out[r.choice(["properties"])] = dict(props or {}, zz=json.loads(json.dumps(r.choice(SCHEMA_DEFECTS))))
+    return out
+
+
 def gen_schema_package(r):
     schema = gen_schema(r)
     if schema.get("type") != "object" and r.random() < 0.8:
         schema = {"type": "object", "properties": {"a": schema}}
     cfg = gen_config_for(r, schema)
+    if r.random() < 0.35:
+        schema = inject_defect(r, schema)
     tail = ""
-    if r.random() < 0.3:
+    k = r.random()
+    if k < 0.3:
         tail = "test:\n  template:\n  - name: t1\n    context:\n      package: {metadata: {name: n, namespace: ns}}\n      config: %s\n" % json.dumps(
             gen_config_for(r, schema))
+    elif k < 0.55:
+        section = json.loads(json.dumps(r.choice(TEST_SECTIONS)))
+        if section and section.get("template") and r.random() < 0.5:
+            section["template"][0]["context"]["config"] = gen_config_for(r, schema)
+        tail = test_tail(section)
     files = {"manifest.yaml": schema_manifest(schema, tail=tail), "a.yaml": obj_yaml("a", {A_PHASE: "deploy"})}
     sc = {"target": "pipeline", "render": render_sc(files, cfg if isinstance(cfg, (dict, type(None))) or r.random() < 0.3 else None),
           "deploy": r.random() < 0.2}
-    if r.random() < 0.15:
-        sc = {"target": "cli", "cmd": r.choice(["tree", "validate"]), "render": sc["render"]}
+    if r.random() < 0.3:
+        sc = {"target": "cli", "cmd": r.choice(["tree", "validate", "validate"]), "render": sc["render"]}
     return sc, "ScOpaque"
 
 
@@ -1348,10 +1432,10 @@ def gen_all(seed, tier):
     for t in offsets:
         add(gen_oci_truncation(entries, t)[:2])
 
-    for p in schema_corpus() + probe_shape_corpus() + controller_corpus() + include_corpus():
+    for p in schema_corpus() + defect_corpus() + probe_shape_corpus() + controller_corpus() + include_corpus():
         add(p)
 
-    n = 3600 if tier == "quick" else 196000
+    n = 3000 if tier == "quick" else 196000
     weights = [("collector", 10), ("collector-cli", 2), ("pipeline", 22), ("oci", 10), ("mapconditions", 14), ("template-conditions", 14),
                ("template-source", 8), ("template-reconcile", 5), ("owner", 5), ("probe", 10), ("controller", 6)]
     names = [w[0] for w in weights]
@@ -1395,6 +1479,7 @@ def check(run, tier, seed, replay=None):
         "the stage models are those of the present tree (repaired shapes); the five repaired sites are `Fixed` entries of the table, outside the accepted "
         "inventory, with `_v0` models and refutation theorems naming the fixing commits",
         "the site inventory is syntactic (go/types): unchecked assertions, index/slice expressions on slices/strings/arrays, explicit panic, Must* helpers, "
+        "(explicit panics carry the conditions of their enclosing if / case statements in their identity: a changed guard is a different site), "
         "pointer results used before an unconditional err != nil check, direct recursion, nil passed to a pointer/interface parameter of another module, "
         "dereferences of pointer-typed struct fields (and of locals assigned from them) with a same-function nil-check dominance heuristic, ==/!= on two "
         "operands of type any, nilable struct fields that one constructor sets and another leaves out while the package calls through them, template "
